@@ -165,6 +165,14 @@ StepRules(st, self, types, cache) ==
              /\ ~(script.limit # 0 /\ (IF pull THEN pre.queued ELSE pre.received) >= script.limit) /\ st.ret = "nil")
            => (post.status = "Completed" /\ reply.kind = "Complete" /\ ~reply.paused)
         THEN {} ELSE {"C03.finalizingRelease"})
+  (* whatever else happens to a responder that is holding for finalization (a repeated transport completion, a restart, a      *)
+  (* voucher, any message): it neither completes nor tells the initiator an un-paused Complete - only the application's own      *)
+  (* validation update (no longer requiring finalization) or resume does                                                        *)
+  \cup (IF (has /\ ~amInit /\ pre.status = "Finalizing" /\ pre.reqFin /\ st.panic = ""
+             /\ (post.status \in {"Completing","Completed"} \/ Has(sends, LAMBDA n : n.msg.kind = "Complete" /\ ~n.msg.paused /\ n.msg.accepted)
+                  \/ (reply.kind = "Complete" /\ ~reply.paused /\ reply.accepted)))
+           => ((k = "UpdateValidation" /\ script.accepted /\ ~script.reqFin) \/ k = "Resume")
+        THEN {} ELSE {"C03.finalizingOnlyReleased"})
   \cup (IF (k = "OnChannelCompleted" /\ has /\ ~amInit /\ s.args.err = "" /\ s.sendFail = << >> /\ pre.status \in {"Ongoing","Queued"})
            => (IF pre.reqFin THEN post.status = "Finalizing" /\ Has(sends, LAMBDA n : n.msg.kind = "Complete" /\ n.msg.paused)
                              ELSE post.status = "Completed" /\ Has(sends, LAMBDA n : n.msg.kind = "Complete" /\ ~n.msg.paused))
